@@ -5,6 +5,53 @@ from lib.common import *
 from checks.repair_common import scenarios_from_writer, pick
 
 
+
+def cli_downgrade(v, tier, ev):
+    """The command line is where a user states "this archive is encrypted" (by giving a key): an encrypted archive whose
+    header is kept but whose ENCRYPT bit is cleared and whose body is replaced by the body of an unencrypted archive must
+    not be listed / read / extracted as if it were the original."""
+    import os
+    import shutil
+    import subprocess
+    mlar = build_mlar()
+    wd = workdir("c03-cli")
+    open(os.path.join(wd, "original.txt"), "wb").write(b"the original content\n" * 40)
+    open(os.path.join(wd, "forged.txt"), "wb").write(b"FORGED CONTENT planted by someone without the key\n" * 30)
+
+    def run(args):
+        p = subprocess.run([mlar] + args, cwd=wd, stdout=subprocess.PIPE, stderr=subprocess.PIPE, timeout=120, preexec_fn=limit_as)
+        return p.returncode, p.stdout, p.stderr.decode(errors="replace")[-300:]
+    key = os.path.join(wd, "k")
+    if run(["keygen", key])[0]:
+        raise ToolError("mlar keygen failed")
+    n = 0
+    for comp in (False, True):
+        lay = (["-l", "compress"] if comp else []) + ["-l", "encrypt"]
+        if run(["create", "-o", "enc.mla", "-p", key + ".pub", "original.txt"] + lay)[0] or \
+           run(["create", "-o", "plain.mla", "forged.txt"] + (["-l", "compress"] if comp else ["-l"]))[0]:
+            raise ToolError("mlar create failed")
+        enc = open(os.path.join(wd, "enc.mla"), "rb").read()
+        plain = open(os.path.join(wd, "plain.mla"), "rb").read()
+        hlen = 3 + 4 + 1 + 1 + 32 + 8 + 48 + 8
+        if not (enc[7] & 1) or enc[8] != 1 or plain[8] != 0:
+            raise ToolError("unexpected header layout")
+        forged = bytearray(enc[:hlen] + plain[9:])
+        forged[7] &= 0xFE
+        open(os.path.join(wd, "forged.mla"), "wb").write(forged)
+        for cmd, args in (("list", ["list", "-i", "forged.mla", "-k", key]), ("cat", ["cat", "-i", "forged.mla", "-k", key, "forged.txt"]),
+                          ("extract", ["extract", "-i", "forged.mla", "-k", key, "-o", "xout"])):
+            rc, so, se = run(args)
+            n += 1
+            leaked = b"forged.txt" in so or b"FORGED CONTENT" in so or os.path.exists(os.path.join(wd, "xout", "forged.txt"))
+            if leaked:
+                v.violation(dict(check="cli-tamper", fault="downgrade-header+body-splice", content="honest", kind="foreign-name", stack="comp+enc" if comp else "enc"),
+                            dict(cmd=cmd, rc=rc, stdout=so[:120].decode(errors="replace"), stderr=se))
+            shutil.rmtree(os.path.join(wd, "xout"), ignore_errors=True)
+    shutil.rmtree(wd, ignore_errors=True)
+    ev["cli_downgrade_observations"] = n
+    log(f"[C03] command line: encrypted header kept, ENCRYPT bit cleared, body of an unencrypted archive spliced in; {n} commands given the key")
+
+
 def main(tier):
     v = Verdict("C03", tier)
     ev = dict(tlc=[])
@@ -74,6 +121,7 @@ def main(tier):
     log(f"[C03] Tamper model: {len(behs)} edit behaviours; {tot['runs']} altered archives read "
         f"({tot['opened']} opened, {tot['reads_ok']} reads returned original bytes, {tot['errors']} errors, "
         f"{tot['identical']} identical to the original)")
+    cli_downgrade(v, tier, ev)
     cov = dict(states=r.distinct, transitions=r.generated, traces_validated_against_impl=tot["runs"],
                samples=samples[:3] or ["none"], behaviours_from_model=len(behs), altered_archives_read=tot["runs"],
                opened=tot["opened"], reads_returning_original=tot["reads_ok"], errors=tot["errors"], tlc_runs=ev["tlc"],
